@@ -386,8 +386,9 @@ func (i *info) MarshalJSON() ([]byte, error) {
 	if i.ctx != nil {
 		ctxError = fmt.Sprint(i.ctx.Err())
 	}
-	if i.Client() != nil {
-		client = i.Client().String()
+	// (read the client once: it may be set to nil between two reads)
+	if c := i.Client(); c != nil {
+		client = c.String()
 	}
 
 	state := struct {
